@@ -183,6 +183,9 @@ pub struct SimState {
     pub record_tt_traffic: bool,
     pub tt_traffic: Vec<Event>,
     pub tt_traffic_cap: usize,
+    /// stores that put an entry under a key that held nothing (distinct positions cached by
+    /// this process, counted at the searcher's store site)
+    pub tt_new_keys: u64,
     pub faults: FaultCounts,
     // event log
     pub seq: u64,
@@ -224,6 +227,7 @@ impl SimState {
             record_tt_traffic: false,
             tt_traffic: vec![],
             tt_traffic_cap: 200_000,
+            tt_new_keys: 0,
             faults: FaultCounts::default(),
             seq: 0,
             log_hash: FNV_INIT,
@@ -300,6 +304,7 @@ fn stack_addr() -> usize {
 
 impl Sim for World {
     fn clock_read(&mut self) -> u64 {
+        heartbeat();
         let mut st = self.st.borrow_mut();
         st.reads += 1;
         let gidx = st.reads;
@@ -385,6 +390,7 @@ impl Sim for World {
     }
 
     fn read(&mut self, buf: &mut [u8]) -> std::io::Result<usize> {
+        heartbeat();
         let mut st = self.st.borrow_mut();
         st.call_boundary = true;
         st.nodes_in_call = 0;
@@ -427,6 +433,7 @@ impl Sim for World {
     }
 
     fn out(&mut self, s: &str) {
+        heartbeat();
         let mut st = self.st.borrow_mut();
         st.out_partial.push_str(s);
         while let Some(i) = st.out_partial.find('\n') {
@@ -465,6 +472,7 @@ impl Sim for World {
     }
 
     fn on_node(&mut self, kind: u8) {
+        heartbeat();
         let mut st = self.st.borrow_mut();
         let cost = st.clock.cost_node_ns;
         st.now_ns += cost;
@@ -635,6 +643,9 @@ impl Sim for World {
                 }
             }
             _ => {
+                if let Event::TtStoreEffect { before: None, after: Some(_), .. } = &ev {
+                    st.tt_new_keys += 1;
+                }
                 if matches!(&ev, Event::TtStore { .. } | Event::TtStoreEffect { .. }) {
                     if let Some(s) = st.searches.last_mut() {
                         s.progress_mark = s.nodes;
@@ -649,7 +660,22 @@ impl Sim for World {
 }
 
 /// Engine calls in progress, for the hang watchdog: (thread, sim index, since when).
-pub static ENGINE_CALLS: std::sync::Mutex<Vec<(std::thread::ThreadId, u64, std::time::Instant)>> = std::sync::Mutex::new(Vec::new());
+pub static ENGINE_CALLS: std::sync::Mutex<Vec<(std::thread::ThreadId, u64, std::time::Instant, std::sync::Arc<std::sync::atomic::AtomicU64>)>> = std::sync::Mutex::new(Vec::new());
+
+thread_local! {
+    /// Bumped at every event the simulator sees from the engine on this thread (node entered,
+    /// clock read, input read, output written). The watchdog takes an engine call for hanging
+    /// only when this has stood still for the limit: a slow machine makes a long search slow,
+    /// it does not stop its events.
+    static BEAT: std::sync::Arc<std::sync::atomic::AtomicU64> = std::sync::Arc::new(std::sync::atomic::AtomicU64::new(0));
+}
+
+#[inline]
+pub fn heartbeat() {
+    BEAT.with(|b| {
+        b.fetch_add(1, std::sync::atomic::Ordering::Relaxed);
+    });
+}
 
 thread_local! {
     /// sim index of the batch this thread is working on (set by the batch runner)
@@ -666,7 +692,7 @@ impl EngineCallGuard {
         if g.iter().any(|e| e.0 == id) {
             return EngineCallGuard(false);
         }
-        g.push((id, CURRENT_SIM.with(|c| c.get()), std::time::Instant::now()));
+        g.push((id, CURRENT_SIM.with(|c| c.get()), std::time::Instant::now(), BEAT.with(|b| b.clone())));
         EngineCallGuard(true)
     }
 }
